@@ -433,7 +433,8 @@ class AssignedFeatureCounter(AbstractCounter):
                 for line in f:
                     if line.startswith('__'): break
                     if line.startswith('#'):
-                        outf.write(line.replace("count", "TPM"))
+                        # the ungrouped table has a single "count" column, the columns of a grouped table are group names
+                        outf.write(line.replace("count", "TPM") if self.ignore_read_groups else line)
                         continue
                     fs = line.rstrip().split('\t')
                     if self.ignore_read_groups:
